@@ -113,3 +113,40 @@ void h_whole(void)
     VERIF_CANARY;
 }
 #endif
+
+/* ------------------------------------------------------------ overlapsWith: which segment pairs nudging must separate */
+#if defined(JOB_overlaps)
+/* Two segments whose spans overlap along a stretch of positive length and whose shift ranges have a common value could
+ * end up collinear and overlapping: nudging has to treat them as interacting (C10: "never run collinear and overlapping
+ * along a stretch of positive length when the channel is wide enough").  Everything else about the grouping heuristics
+ * (touching spans, s/z-bends, shared-path penalties) is left unconstrained. */
+/* plain harness (objects allocated here): the dfcc version with eight is_fresh objects produced a 71M-clause formula */
+void *verif_connA, *verif_routeA, *verif_routeB;
+void *w_displayRoute(void *conn) { return conn == verif_connA ? verif_routeA : verif_routeB; }
+void *w_router(void *conn) { return (void *)0; }
+double nondet_double(void); _Bool nondet_bool(void);
+double w_routingParameter(void *r, int p) { return nondet_double(); }
+_Bool w_routingOption(void *r, int o) { return nondet_bool(); }
+_Bool w_overlapsWith(void *a, void *b, size_t dim);
+#define NPT 4
+void h_overlaps(void)
+{
+    struct Seg sa, sb; struct Polygon ra, rb; struct Point pa[NPT], pb[NPT]; size_t ia[3], ib[3]; char ca, cb; size_t dim;
+    __CPROVER_assume(dim <= 1);
+    ra.ps.d = pa; ra.ps.n = NPT; ra.ps.cap = NPT; rb.ps.d = pb; rb.ps.n = NPT; rb.ps.cap = NPT;
+    verif_connA = &ca; verif_routeA = &ra; verif_routeB = &rb;
+    sa.connRef = &ca; sb.connRef = &cb;                       /* two different connectors */
+    size_t na, nb; __CPROVER_assume(na >= 1 && na <= 3 && nb >= 1 && nb <= 3);
+    sa.indexes.d = ia; sa.indexes.n = na; sa.indexes.cap = 3; sb.indexes.d = ib; sb.indexes.n = nb; sb.indexes.cap = 3;
+    for (int k = 0; k < 3; k++) __CPROVER_assume(ia[k] < NPT && ib[k] < NPT);
+    size_t alt = 1 - dim;
+    double lowA = alt == 0 ? pa[ia[0]].x : pa[ia[0]].y, highA = alt == 0 ? pa[ia[na - 1]].x : pa[ia[na - 1]].y;
+    double lowB = alt == 0 ? pb[ib[0]].x : pb[ib[0]].y, highB = alt == 0 ? pb[ib[nb - 1]].x : pb[ib[nb - 1]].y;
+    _Bool r = w_overlapsWith(&sa, &sb, dim);
+    _Bool spans_overlap = lowA < highB && lowB < highA;                                   /* positive length */
+    _Bool common_position = sa.minSpaceLimit <= sb.maxSpaceLimit && sb.minSpaceLimit <= sa.maxSpaceLimit;
+    __CPROVER_assert(!(spans_overlap && common_position) || r,
+                     "SPEC overlapsWith: segments of different connectors whose spans overlap along a positive stretch and whose shift ranges share a position are reported as interacting");
+    VERIF_CANARY;
+}
+#endif
